@@ -294,7 +294,7 @@ package failsafe
 //@ func NewExecutor
 //@   builder
 //@   let x := asref(result, *executor)
-//@   ensures [C01.executor.new] typeis(result, *executor) && fresh(x) && len(x.policies) == len(policies) && (forall j int :: 0 <= j && j < len(policies) ==> x.policies[j] == policies[j]) && x.ctx == background() && x.onDone == nil && x.onSuccess == nil && x.onFailure == nil
+//@   ensures [C01.executor.new] typeis(result, *executor) && fresh(x) && len(x.policies) == len(policies) && (forall j int :: 0 <= j && j < len(policies) ==> x.policies[j] == policies[j]) && x.ctx == background() && x.ctx != nil && x.onDone == nil && x.onSuccess == nil && x.onFailure == nil
 //@   modifies nothing
 //@ func (*executor).OnDone
 //@   builder
@@ -418,3 +418,114 @@ package failsafe
 //@   ensures [C01.entry.getwithexecutionasync+C15.entry.getwithexecutionasync] nc == 1 && cwith == true && clofn(cfn) == fnid("(*executor).GetWithExecutionAsync$1") && result == r0
 //@   havoc
 //@   modifies *
+
+// package-level entry points: NewExecutor(policies...).X(fn) -- one call of the executor method, on an executor holding exactly
+// the given policies, with the given function; its results are returned unchanged
+//@ func Run
+//@   dyntype Executor *executor only
+//@   requires fn != nil && (forall j int :: 0 <= j && j < len(policies) ==> policies[j] != nil)
+//@   oldlet nc := 0
+//@   oncall (*executor).Run: nc := nc + 1; cx := callarg_0; cfn := callarg_1; r0 := callresult_0
+//@   ensures [C01.pkg.run+C15.pkg.run] nc == 1 && cfn == fn && result == r0 && len(cx.policies) == len(policies) && (forall j int :: 0 <= j && j < len(policies) ==> cx.policies[j] == policies[j]) && cx.onDone == nil && cx.onSuccess == nil && cx.onFailure == nil
+//@   havoc
+//@   modifies *
+//@ func RunWithExecution
+//@   dyntype Executor *executor only
+//@   requires fn != nil && (forall j int :: 0 <= j && j < len(policies) ==> policies[j] != nil)
+//@   oldlet nc := 0
+//@   oncall (*executor).RunWithExecution: nc := nc + 1; cx := callarg_0; cfn := callarg_1; r0 := callresult_0
+//@   ensures [C01.pkg.runwithexecution+C15.pkg.runwithexecution] nc == 1 && cfn == fn && result == r0 && len(cx.policies) == len(policies) && (forall j int :: 0 <= j && j < len(policies) ==> cx.policies[j] == policies[j]) && cx.onDone == nil && cx.onSuccess == nil && cx.onFailure == nil
+//@   havoc
+//@   modifies *
+//@ func Get
+//@   dyntype Executor *executor only
+//@   requires fn != nil && (forall j int :: 0 <= j && j < len(policies) ==> policies[j] != nil)
+//@   oldlet nc := 0
+//@   oncall (*executor).Get: nc := nc + 1; cx := callarg_0; cfn := callarg_1; r0 := callresult_0; r1 := callresult_1
+//@   ensures [C01.pkg.get+C15.pkg.get] nc == 1 && cfn == fn && result_0 == r0 && result_1 == r1 && len(cx.policies) == len(policies) && (forall j int :: 0 <= j && j < len(policies) ==> cx.policies[j] == policies[j]) && cx.onDone == nil && cx.onSuccess == nil && cx.onFailure == nil
+//@   havoc
+//@   modifies *
+//@ func GetWithExecution
+//@   dyntype Executor *executor only
+//@   requires fn != nil && (forall j int :: 0 <= j && j < len(policies) ==> policies[j] != nil)
+//@   oldlet nc := 0
+//@   oncall (*executor).GetWithExecution: nc := nc + 1; cx := callarg_0; cfn := callarg_1; r0 := callresult_0; r1 := callresult_1
+//@   ensures [C01.pkg.getwithexecution+C15.pkg.getwithexecution] nc == 1 && cfn == fn && result_0 == r0 && result_1 == r1 && len(cx.policies) == len(policies) && (forall j int :: 0 <= j && j < len(policies) ==> cx.policies[j] == policies[j]) && cx.onDone == nil && cx.onSuccess == nil && cx.onFailure == nil
+//@   havoc
+//@   modifies *
+//@ func RunAsync
+//@   dyntype Executor *executor only
+//@   requires fn != nil && (forall j int :: 0 <= j && j < len(policies) ==> policies[j] != nil)
+//@   oldlet nc := 0
+//@   oncall (*executor).RunAsync: nc := nc + 1; cx := callarg_0; cfn := callarg_1; r0 := callresult_0
+//@   ensures [C01.pkg.runasync+C15.pkg.runasync] nc == 1 && cfn == fn && result == r0 && len(cx.policies) == len(policies) && (forall j int :: 0 <= j && j < len(policies) ==> cx.policies[j] == policies[j]) && cx.onDone == nil && cx.onSuccess == nil && cx.onFailure == nil
+//@   havoc
+//@   modifies *
+//@ func RunWithExecutionAsync
+//@   dyntype Executor *executor only
+//@   requires fn != nil && (forall j int :: 0 <= j && j < len(policies) ==> policies[j] != nil)
+//@   oldlet nc := 0
+//@   oncall (*executor).RunWithExecutionAsync: nc := nc + 1; cx := callarg_0; cfn := callarg_1; r0 := callresult_0
+//@   ensures [C01.pkg.runwithexecutionasync+C15.pkg.runwithexecutionasync] nc == 1 && cfn == fn && result == r0 && len(cx.policies) == len(policies) && (forall j int :: 0 <= j && j < len(policies) ==> cx.policies[j] == policies[j]) && cx.onDone == nil && cx.onSuccess == nil && cx.onFailure == nil
+//@   havoc
+//@   modifies *
+//@ func GetAsync
+//@   dyntype Executor *executor only
+//@   requires fn != nil && (forall j int :: 0 <= j && j < len(policies) ==> policies[j] != nil)
+//@   oldlet nc := 0
+//@   oncall (*executor).GetAsync: nc := nc + 1; cx := callarg_0; cfn := callarg_1; r0 := callresult_0
+//@   ensures [C01.pkg.getasync+C15.pkg.getasync] nc == 1 && cfn == fn && result == r0 && len(cx.policies) == len(policies) && (forall j int :: 0 <= j && j < len(policies) ==> cx.policies[j] == policies[j]) && cx.onDone == nil && cx.onSuccess == nil && cx.onFailure == nil
+//@   havoc
+//@   modifies *
+//@ func GetWithExecutionAsync
+//@   dyntype Executor *executor only
+//@   requires fn != nil && (forall j int :: 0 <= j && j < len(policies) ==> policies[j] != nil)
+//@   oldlet nc := 0
+//@   oncall (*executor).GetWithExecutionAsync: nc := nc + 1; cx := callarg_0; cfn := callarg_1; r0 := callresult_0
+//@   ensures [C01.pkg.getwithexecutionasync+C15.pkg.getwithexecutionasync] nc == 1 && cfn == fn && result == r0 && len(cx.policies) == len(policies) && (forall j int :: 0 <= j && j < len(policies) ==> cx.policies[j] == policies[j]) && cx.onDone == nil && cx.onSuccess == nil && cx.onFailure == nil
+//@   havoc
+//@   modifies *
+
+// plain getters of an execution's frozen fields (the getters of the lock-guarded fields -- LastResult, LastError,
+// AttemptStartTime, ElapsedAttemptTime -- are not under contract: they read without the lock and are safe only on the
+// copies that user code is handed, which is what the C14.callback_gets_copy obligations establish)
+//@ func (*execution).Context
+//@   requires e != nil && e.ctx != nil
+//@   ensures [C08.getter.context] result == e.ctx && result != nil
+//@   modifies nothing
+//@ func (*execution).IsCanceled
+//@   requires e != nil && e.ctx != nil
+//@   ensures [C08.getter.is_canceled] result == (ret(e.ctx.Err, 1) != nil) && result == canceled(e.ctx) && ncalls(e.ctx.Err) == 1
+//@   modifies canceled(e.ctx), calls(e.ctx.Err)
+//@ func (*execution).Canceled
+//@   requires e != nil && e.ctx != nil
+//@   ensures [C08.getter.canceled_channel] result == ret(e.ctx.Done, 1) && ncalls(e.ctx.Done) == 1
+//@   modifies calls(e.ctx.Done)
+//@ func (*execution).StartTime
+//@   requires e != nil
+//@   ensures [C01.getter.start_time] result == e.startTime
+//@   modifies nothing
+
+// Result() / Error() of an async result are the two halves of one Get()
+//@ func (*executionResult).Result
+//@   requires e != nil
+//@   requires atomval(e, "result", "ref") != nil ==> cellof(atomval(e, "result", "ref"), *common.PolicyResult) != nil
+//@   oldlet ng := 0
+//@   oncall (*executionResult).Get: ng := ng + 1; gx := callarg_0; g0 := callresult_0
+//@   ensures [C15.result_is_get] ng == 1 && gx == e && result == g0
+//@   havoc
+//@   modifies *
+//@ func (*executionResult).Error
+//@   requires e != nil
+//@   requires atomval(e, "result", "ref") != nil ==> cellof(atomval(e, "result", "ref"), *common.PolicyResult) != nil
+//@   oldlet ng := 0
+//@   oncall (*executionResult).Get: ng := ng + 1; gx := callarg_0; g1 := callresult_1
+//@   ensures [C15.error_is_get] ng == 1 && gx == e && result == g1
+//@   havoc
+//@   modifies *
+
+// the event handed to OnDone / OnSuccess / OnFailure carries exactly the final result and error
+//@ func newExecutionDoneEvent
+//@   requires er != nil
+//@   ensures [C16.done_event.values] result.Result == er.Result && result.Error == er.Error && result.ExecutionInfo == info
+//@   modifies nothing
